@@ -35,6 +35,16 @@ def generate(seed, tier, index):
     sc = physics.gen_config(r, allow_mass=True)
     if r.random() < 0.06:
         sc['config']['level']['restol'] = 10 ** r.uniform(1, 3)  # tolerance already met by the initial guess
+    cfg = sc['config']
+    c = r.random()
+    if c < 0.1 and sc.get('problem_kind') != 'mass':
+        # a second, increment-based stopping criterion (CheckConvergence loads EstimateEmbeddedError for it)
+        cfg['level']['e_tol'] = 10 ** r.uniform(-9, -3)
+    elif c < 0.18:
+        # a node value turns into NaN: the residual is not a number from then on, which is not "at most the tolerance"
+        nlev = len(cfg['sweeper']['params']['num_nodes']) if isinstance(cfg['sweeper']['params'].get('num_nodes'), list) else 1
+        sc['faults']['soft'].append({'block': 0, 'slot': r.randrange(cfg['P']), 'level': r.randrange(nlev), 'iter': r.randint(1, min(cfg['step']['maxiter'], 3)),
+                                     'event': r.choice(['pre_sweep', 'post_sweep', 'pre_iteration']), 'node': r.randrange(8), 'kind': 'nan', 'rel': 0.0, 'seed': 0})
     return sc
 
 
